@@ -17,9 +17,7 @@ use crate::drive::{self, DriveOpts};
 use crate::gen::{self, Params, SampleSet, Shape};
 use crate::mon;
 use std::panic::{catch_unwind, AssertUnwindSafe};
-use std::sync::atomic::{AtomicBool, Ordering};
-use std::sync::Arc;
-use std::time::{Duration, Instant};
+use std::time::Duration;
 use vcommon::{fnv, jobj, jstr, Args, Report, Rng};
 
 pub struct Case {
@@ -74,6 +72,35 @@ pub fn case_inputs(seed: u64, i: u64) -> Case {
     Case { oversized: p.capacity < maxc, p, set, opts, pseed: rng.next(), per_mille: *rng.pick(&[0u64, 100, 400, 800]) }
 }
 
+static STUCK_CTX: std::sync::Mutex<Option<(Option<String>, String)>> = std::sync::Mutex::new(None);
+
+/// Stuck-state verdict of the online detector: report and leave (threads cannot be recovered)
+fn on_stuck(desc: &str, log: &[mon::Ev]) {
+    let (out, cj) = STUCK_CTX.lock().unwrap().clone().unwrap_or((None, "null".to_string()));
+    let mut rep = Report::new();
+    rep.evaluations = 1;
+    let tail: Vec<String> = log
+        .iter()
+        .rev()
+        .take(60)
+        .rev()
+        .map(|e| format!("[{},{},{},{},{},{}]", e.kind, e.tid, e.a[0], e.a[1], e.a[2], e.a[3]))
+        .collect();
+    rep.violation(
+        "C05:stuck",
+        jobj(&[
+            ("what", jstr(&format!("stuck: {}", desc))),
+            ("case_detail", cj),
+            ("events_seen", log.len().to_string()),
+            ("last_events_kind_tid_args", vcommon::jarr(&tail)),
+        ]),
+    );
+    if let Some(p) = &out {
+        let _ = std::fs::write(p, rep.to_json());
+    }
+    std::process::exit(3);
+}
+
 /// Child process: run one case under the monitors. Exit code 0 = held, 3 = violation (details
 /// in the report file), anything else = harness trouble.
 pub fn child(args: &Args, rep: &mut Report) -> i32 {
@@ -82,67 +109,19 @@ pub fn child(args: &Args, rep: &mut Report) -> i32 {
     let scratch = args.get("scratch").unwrap_or("/tmp").to_string();
     let path = format!("{}/c05-{}-{}.agc", scratch, std::process::id(), i);
     mon::install();
-    mon::log_start();
+    mon::set_case(i, case_json(&case, args, i));
+    *STUCK_CTX.lock().unwrap() = Some((args.out.clone(), case_json(&case, args, i)));
+    *mon::STUCK_HANDLER.lock().unwrap() = Some(on_stuck);
     mon::perturb_on(case.pseed, case.per_mille, 1500);
-    let done = Arc::new(AtomicBool::new(false));
     let n_workers = case.p.threads;
-    // ---- online stuck-state detector ----
-    let done2 = Arc::clone(&done);
-    let out_path = args.out.clone();
-    let cj = case_json(&case, args, i);
-    let monitor = std::thread::spawn(move || {
-        let mut last_len = 0usize;
-        let mut stable_since: Option<Instant> = None;
-        let confirm = Duration::from_millis(4000);
-        while !done2.load(Ordering::SeqCst) {
-            std::thread::sleep(Duration::from_millis(100));
-            let len = mon::log_len();
-            if len != last_len {
-                last_len = len;
-                stable_since = None;
-                continue;
-            }
-            let log = mon::log_copy_from(0);
-            let d = mon::derive(&log);
-            match mon::is_stuck(&d, n_workers) {
-                None => stable_since = None,
-                Some(desc) => {
-                    let since = *stable_since.get_or_insert_with(Instant::now);
-                    if since.elapsed() >= confirm && mon::log_len() == len {
-                        // stable blocked state: report and leave (threads cannot be recovered)
-                        let mut rep = Report::new();
-                        rep.evaluations = 1;
-                        let tail: Vec<String> = log
-                            .iter()
-                            .rev()
-                            .take(60)
-                            .rev()
-                            .map(|e| format!("[{},{},{},{},{},{}]", e.kind, e.tid, e.a[0], e.a[1], e.a[2], e.a[3]))
-                            .collect();
-                        rep.violation(
-                            "C05:stuck",
-                            jobj(&[
-                                ("what", jstr(&format!("stuck: {}", desc))),
-                                ("case_detail", cj.clone()),
-                                ("events_seen", log.len().to_string()),
-                                ("last_events_kind_tid_args", vcommon::jarr(&tail.iter().map(|s| s.clone()).collect::<Vec<_>>())),
-                            ]),
-                        );
-                        if let Some(p) = &out_path {
-                            let _ = std::fs::write(p, rep.to_json());
-                        }
-                        std::process::exit(3);
-                    }
-                }
-            }
-        }
-    });
-    // ---- the run itself ----
-    let res = catch_unwind(AssertUnwindSafe(|| drive::create_with(&path, &case.set, &case.p, &case.opts)));
-    done.store(true, Ordering::SeqCst);
-    let _ = monitor.join();
+    // ---- the run itself (the guard's stuck-state detector is armed inside create_logged) ----
+    let mut log = Vec::new();
+    let res = catch_unwind(AssertUnwindSafe(|| {
+        let (r, l) = drive::create_logged(&path, &case.set, &case.p, &case.opts);
+        log = l;
+        r
+    }));
     mon::perturb_off();
-    let log = mon::log_stop();
     rep.evaluations = 1;
     let mut code = 0;
     let mut viol = |rep: &mut Report, what: String| {
